@@ -74,7 +74,13 @@ def replay(ctx, functionals, prefix):
             ctx.case(key=("gradpattern", fname, tuple(ks)))
             why = None
             try:
-                ps, out, g = run_row(fname, ks)
+                if n % 3 == 0:
+                    # every third row under xitorch's debug mode (extra input checks, parameter probing): same outcome demanded
+                    import contextlib, io
+                    with xitorch.enable_debug(), contextlib.redirect_stdout(io.StringIO()):
+                        ps, out, g = run_row(fname, ks)
+                else:
+                    ps, out, g = run_row(fname, ks)
                 gi = iter(g)
                 for i, (k, p) in enumerate(zip(ks, ps)):
                     if k in ("tg", "tu"):
